@@ -174,8 +174,62 @@ func c15Case(c *Ctx, id int) (string, ref.V) {
 func c15Cases(c *Ctx) int { return tierN(c, 3000, 50000) }
 
 // every process runs every case: idx = id*NBatch + batch
+// c15Foreign: documents that are not JSON-shaped (maps with non-string keys whose printed forms
+// collide, typed maps, structs): whatever the library makes of them, it must make the same of
+// them every time.
+func c15Foreign(c *Ctx, id int) {
+	r := c.Rand(fmt.Sprint("f", c.Batch))
+	type pt struct{ X, Y int }
+	mk := func() any {
+		m := map[any]any{}
+		ks := []any{"name", 1, "1", 1.0, true, "true", int64(1), "k", 2, "2", pt{1, 2}, "{1 2}"}
+		gen.Shuffle(r, ks)
+		for _, k := range ks {
+			m[k] = fmt.Sprintf("%T:%v", k, k)
+		}
+		return []any{m, map[string]any{"inner": m, "typed": map[int]string{1: "a", 2: "b"}, "s": pt{3, 4}}}[id%2]
+	}
+	for _, text := range []string{"\"1\"", "\"true\"", "name", "{a: \"1\", b: \"2\"}", "let $x = \"1\" in $x", "inner.\"1\"", "keys(@) | length(@)", "length(@)", "type(@)", "to_string(@) | length(@)", "@ == @", "inner == inner", "merge(@, {z: `1`}).\"1\"", "values(@) | length(@)", "[\"1\", \"2\", name]", "typed", "s", "not_null(\"1\", inner.\"1\", 'none')"} {
+		seen := map[string]int{}
+		for k := 0; k < 40; k++ {
+			var l LibOut
+			if k%2 == 0 {
+				l = c.LibSearch(text, mk())
+			} else if e, lc := c.LibCompile(text); lc.Err == nil && lc.Panic == nil {
+				l = c.LibExprSearch(e, text, mk())
+			} else {
+				l = lc
+			}
+			d := "panic"
+			if l.Panic == nil {
+				d = ShowOut(l)
+				if l.Err == nil {
+					d = gen.Describe(l.Res)
+					if strings.Contains(d, "map[") {
+						d = fmt.Sprint(len(d)) // maps print in iteration order: compare sizes only
+					}
+				}
+			}
+			seen[d]++
+		}
+		if len(seen) > 1 {
+			var alts []string
+			for d, n := range seen {
+				alts = append(alts, fmt.Sprintf("%dx %s", n, clipS(d, 200)))
+			}
+			sort.Strings(alts)
+			c.Report(Violation{Rule: "C15/varies-within-process", Expr: text, Data: "a document holding map[any]any with keys whose printed forms collide (1, \"1\", 1.0, true, \"true\"), typed maps and structs", Got: strings.Join(alts, "  |  "), Detail: "40 evaluations on freshly built equal documents"})
+		}
+	}
+	c.Nontrivial("foreign", fmt.Sprint(id))
+}
+
 func c15Run(c *Ctx, idx int) {
 	id := idx / c.NBatch
+	if id%200 == 13 {
+		c15Foreign(c, id)
+		return
+	}
 	text, doc := c15Case(c, id)
 	m := ref.Search(text, doc)
 	enum := Enumerates(text)
